@@ -323,11 +323,11 @@ func blsSingleCase[
 	PK curves.PairingFriendlyPoint[PK, PKFE, SG, SGFE, tGT, tSC], PKFE algebra.FieldElement[PKFE],
 	SG curves.PairingFriendlyPoint[SG, SGFE, PK, PKFE, tGT, tSC], SGFE algebra.FieldElement[SGFE],
 ](t *rapid.T, test string, e *blsEnv[PK, PKFE, SG, SGFE]) {
-	alt := rapid.SampledFrom([]string{
+	alt := flatPick(t, "alt", []string{
 		"msg", "sig-other-msg", "sig-neg", "sig+G", "sig-identity", "pk-other", "pk-neg", "pk+torsion", "pk-identity",
 		"pop-other-key", "pop-missing", "pop-msg-dst", "dst-custom-match", "dst-custom-mismatch", "dst-other-alg", "mode-mismatch", "empty-msg",
-	}).Draw(t, "alt")
-	alg := rapid.SampledFrom(allAlgs).Draw(t, "alg")
+	})
+	alg := flatPick(t, "alg", allAlgs)
 	if alt == "pop-other-key" || alt == "pop-missing" || alt == "pop-msg-dst" {
 		alg = bls.POP // proof-of-possession alterations need the POP scheme
 	}
@@ -539,11 +539,11 @@ func blsAggCase[
 	type sigT = *bls.Signature[SG, SGFE, PK, PKFE, tGT, tSC]
 	type popT = *bls.ProofOfPossession[SG, SGFE, PK, PKFE, tGT, tSC]
 	type pkT = *bls.PublicKey[PK, PKFE, SG, SGFE, tGT, tSC]
-	alt := rapid.SampledFrom([]string{
+	alt := flatPick(t, "alt", []string{
 		"none", "none", "none", "drop-sig", "drop-key", "foreign-signer", "swap-msgs", "swap-keys", "identity-key", "torsion-key",
 		"identity-sig", "msg-bit", "pop-wrong", "pop-count", "pops-on-non-pop", "wrong-dst", "len-mismatch", "key-other", "identity-key-consistent", "dup-msg",
-	}).Draw(t, "alt")
-	alg := rapid.SampledFrom(allAlgs).Draw(t, "alg")
+	})
+	alg := flatPick(t, "alg", allAlgs)
 	minN := 1
 	layouts := []string{"distinct", "distinct", "same", "one-dup"}
 	switch alt {
@@ -575,7 +575,7 @@ func blsAggCase[
 			alg = bls.Basic
 		}
 	}
-	n := rapid.IntRange(minN, 6).Draw(t, "n")
+	n := flatPick(t, "n", []int{1, 2, 3, 4, 5, 6}[minN-1:])
 	layout := rapid.SampledFrom(layouts).Draw(t, "layout")
 	sch, err := e.scheme(alg)
 	if err != nil {
@@ -755,6 +755,13 @@ func blsAggCase[
 	if len(pops) > 0 {
 		vopts = append(vopts, bls.VerifyWithProofsOfPossession[PK, PKFE, SG, SGFE, tGT, tSC](pops...))
 	}
+	// Secret keys that cancel on a common message (sk and r - sk) make the honest aggregate the
+	// identity; AggregateVerify is documented to refuse the identity signature (and the draft's
+	// KeyValidate refuses the identity aggregate key), so the expected verdict is "rejected".
+	cancelled := false
+	if !aSigIdent && aSigV.IsOpIdentity() {
+		aSigIdent, cancelled = true, true
+	}
 	// harness verdict: rules of section 3, then the pairing product of CoreAggregateVerify
 	hv := !lenMismatch && len(keys) > 0 && !aSigIdent
 	for _, k := range keys {
@@ -796,7 +803,7 @@ func blsAggCase[
 	expect := false
 	switch alt {
 	case "none", "dup-msg":
-		expect = alg != bls.Basic || distinct(msgs)
+		expect = (alg != bls.Basic || distinct(msgs)) && !cancelled
 	case "swap-keys":
 		// keys and their proofs moved together but messages stayed: wrong pairing of (key, message)
 		expect = false
@@ -809,7 +816,9 @@ func blsAggCase[
 		t.Fatalf("Verifier: %v", err)
 	}
 	var aSig sigT
-	if aSigIdent {
+	if aSigIdent && agg.Value().IsOpIdentity() {
+		aSig = agg // the identity signature object came out of the library's own AggregateSignatures
+	} else if aSigIdent {
 		aSig = e.identitySig(t, agg)
 	} else if aSig, err = bls.NewSignature[SG, SGFE, PK, PKFE, tGT, tSC](aSigV, nil); err != nil {
 		t.Fatalf("harness: NewSignature: %v", err)
@@ -821,7 +830,9 @@ func blsAggCase[
 			e.name, algNames[alg], n, signers[0].d, layout, alt, at, got, expect)
 	}
 	cls := alt
-	if (alt == "none" || alt == "dup-msg") && !expect {
+	if cancelled && (alt == "none" || alt == "dup-msg") {
+		cls = "honest-aggregate-is-identity"
+	} else if (alt == "none" || alt == "dup-msg") && !expect {
 		cls = "duplicate-message-under-basic"
 	} else if alt == "dup-msg" {
 		cls = "duplicate-message-allowed"
@@ -849,7 +860,7 @@ func blsBatchCase[
 	PK curves.PairingFriendlyPoint[PK, PKFE, SG, SGFE, tGT, tSC], PKFE algebra.FieldElement[PKFE],
 	SG curves.PairingFriendlyPoint[SG, SGFE, PK, PKFE, tGT, tSC], SGFE algebra.FieldElement[SGFE],
 ](t *rapid.T, test string, e *blsEnv[PK, PKFE, SG, SGFE]) {
-	alg := rapid.SampledFrom(allAlgs).Draw(t, "alg")
+	alg := flatPick(t, "alg", allAlgs)
 	k := rapid.IntRange(1, 4).Draw(t, "k")
 	sch, err := e.scheme(alg)
 	if err != nil {
@@ -921,7 +932,7 @@ func blsBatchCase[
 	}
 	alt := "none"
 	if k > 1 {
-		alt = rapid.SampledFrom([]string{"drop-message", "msg-bit"}).Draw(t, "alt")
+		alt = flatPick(t, "alt", []string{"drop-message", "msg-bit"})
 		m2 := append([][]byte{}, msgs...)
 		p2 := pks
 		if alt == "drop-message" {
@@ -1169,4 +1180,83 @@ func TestBLSVectors(t *testing.T) {
 		t.Fatalf("harness: vector files missing: %v", counts)
 	}
 	vlib.Exhaustive("Ethereum BLS vectors (pinned copy): sign 10, verify 29, aggregate 6, aggregate_verify 5, batch_verify 4")
+}
+
+func blsCancelCase[
+	PK curves.PairingFriendlyPoint[PK, PKFE, SG, SGFE, tGT, tSC], PKFE algebra.FieldElement[PKFE],
+	SG curves.PairingFriendlyPoint[SG, SGFE, PK, PKFE, tGT, tSC], SGFE algebra.FieldElement[SGFE],
+](t *testing.T, test string, e *blsEnv[PK, PKFE, SG, SGFE], alg bls.RogueKeyPreventionAlgorithm, d *big.Int) {
+	sch, err := e.scheme(alg)
+	if err != nil {
+		t.Fatal(err)
+	}
+	msg := []byte("c15 cancelling keys")
+	var sigs []*bls.Signature[SG, SGFE, PK, PKFE, tGT, tSC]
+	var pks []*bls.PublicKey[PK, PKFE, SG, SGFE, tGT, tSC]
+	var pops []*bls.ProofOfPossession[SG, SGFE, PK, PKFE, tGT, tSC]
+	for _, k := range []*big.Int{d, new(big.Int).Sub(blsOrder, d)} {
+		sk, err := bls.NewPrivateKey(e.keyGrp, blsScalar(t, k))
+		if err != nil {
+			t.Fatal(err)
+		}
+		sg, err := sch.Signer(sk)
+		if err != nil {
+			t.Fatal(err)
+		}
+		s, err := sg.Sign(msg)
+		if err != nil {
+			t.Fatal(err)
+		}
+		sigs, pks = append(sigs, s), append(pks, sk.PublicKey())
+		if alg == bls.POP {
+			pops = append(pops, s.Pop())
+		}
+	}
+	var vopts []bls.VerifierOption[PK, PKFE, SG, SGFE, tGT, tSC]
+	if alg == bls.POP {
+		vopts = append(vopts, bls.VerifyWithProofsOfPossession[PK, PKFE, SG, SGFE, tGT, tSC](pops...))
+	}
+	vf, err := sch.Verifier(vopts...)
+	if err != nil {
+		t.Fatal(err)
+	}
+	agg, err := sch.AggregateSignatures(sigs...)
+	if err != nil {
+		// refusing to produce the identity aggregate is as good as refusing to verify it
+		vlib.Case(test, vlib.Desc("bls", e.name+"/"+algNames[alg]+"/aggregate/same", "bls12381", "sha256-sswu", "cancelling-keys", 2), true, "outcome=aggregation-refused")
+		return
+	}
+	isIdent := agg.Value().IsOpIdentity()
+	if alg != bls.MessageAugmentation && !isIdent {
+		t.Fatalf("bls/%s/%s: signatures of sk and r-sk on one message do not cancel", e.name, algNames[alg])
+	}
+	var accepted bool
+	vlib.NoPanic(t, "AggregateVerify on the identity aggregate", func() { accepted = vf.AggregateVerify(agg, pks, [][]byte{msg, msg}) == nil })
+	// Basic: duplicate messages; POP: identity signature / identity aggregate key; Aug: the
+	// effective messages differ, the aggregate is an ordinary point and must verify
+	if want := alg == bls.MessageAugmentation; accepted != want {
+		t.Fatalf("bls/%s/%s: keys sk=%s and r-sk on one message: aggregate identity=%v, AggregateVerify accept=%v, expected %v", e.name, algNames[alg], d, isIdent, accepted, want)
+	}
+	vlib.Case(test, vlib.Desc("bls", e.name+"/"+algNames[alg]+"/aggregate/same", "bls12381", "sha256-sswu", "cancelling-keys", 2), true,
+		fmt.Sprintf("outcome=identity:%v,accepted:%v", isIdent, accepted))
+}
+
+// TestBLSCancellingKeys: two honest signers whose secret keys add up to the group order sign the
+// same message. Under Basic and POP the aggregate signature is the identity and must be refused
+// (documented: identity signatures are refused; the draft's KeyValidate refuses the identity
+// aggregate key); under MessageAugmentation the effective messages differ and the aggregate verifies.
+func TestBLSCancellingKeys(t *testing.T) {
+	const test = "BLSCancellingKeys"
+	i := 0
+	for _, alg := range allAlgs {
+		for _, d := range []*big.Int{big.NewInt(1), new(big.Int).Rsh(blsOrder, 2)} {
+			i++
+			if !vlib.Mine(i) {
+				continue
+			}
+			blsCancelCase(t, test, blsShort, alg, d)
+			blsCancelCase(t, test, blsLong, alg, d)
+		}
+	}
+	vlib.Exhaustive("BLS cancelling key pairs {1, r/4} x {Basic, MessageAugmentation, POP} x {short, long}")
 }
